@@ -42,7 +42,7 @@ class RecHW(HardwareLayerBase):
 
 
 def make_uod(cmd_log: list | None = None, outputs_safe=(("Out1", 0.0), ), outputs_plain=("Out2", ), with_acc=True, now_fn=None,
-             id_in_log=False):
+             id_in_log=False, default_dur=0):
     """UOD with: input FT01 [L/h], Vol [L] (totalizer), outputs with/without safe value, tags X, Y (plain),
     category tag Cat, commands: Run<k> style scripted commands"""
     from openpectus.lang.exec.uod import UodBuilder, UodCommand
@@ -58,7 +58,7 @@ def make_uod(cmd_log: list | None = None, outputs_safe=(("Out1", 0.0), ), output
             n = cmd.get_iteration_count()
             log.append(("exec", name, cmd.instance_id if id_in_log else id(cmd), n))
             arg = (value or "").strip()
-            dur = 0
+            dur = default_dur       # a command given no arguments (a user's button command) runs this long
             fail_at = None
             for part in arg.split():
                 if part.startswith("d="):
